@@ -1067,7 +1067,7 @@ func TestC04HostileChild(t *testing.T) {
 	}
 	for i := start; i < len(cases); i++ {
 		c := cases[i]
-		if res.Cases > 0 && res.Cases%1000 == 0 {
+		if res.Cases > 0 && res.Cases%250 == 0 {
 			flush() // cumulative; the parent keeps the last line, so work before a fatal error still counts
 		}
 		if lf != nil {
@@ -1083,6 +1083,7 @@ func TestC04HostileChild(t *testing.T) {
 			res.Classes[c.class+"/panic"]++
 			if len(res.Panics) < 3 {
 				res.Panics = append(res.Panics, childFinding{c.class, kit.Hex(c.data), fmt.Sprint(p)})
+				flush()
 			}
 			continue
 		}
